@@ -49,6 +49,13 @@ Theorem C20_compat_refuses : forall (db : option bytes) (h : bytes),
   init_db db h = None <-> exists d, db = Some d /\ d <> h.
 Proof. exact init_db_refuses. Qed.
 
+(* ... over every sequence of starts: whatever a start accepted is accepted again, unchanged, under the same configuration, and
+   refused under every configuration whose genesis hash differs *)
+Theorem C20_compat_restart : forall (db : option bytes) (h s : bytes),
+  init_db db h = Some s ->
+  init_db (Some s) h = Some s /\ (forall h', h' <> h -> init_db (Some s) h' = None).
+Proof. exact init_db_restart. Qed.
+
 (* record of the two defects fixed in /repo: the validators before the fixes accepted a plasma contract with
    100 fused and no entry (state balance 0), and two entries of one address (5 and 7 listed, supply 12,
    state balance 7) *)
